@@ -14,6 +14,7 @@ OVERRUN (virtual horizon passed with non-daemon threads alive), HANG (harness
 watchdog; a bug of the harness, never a finding).
 """
 import datetime as _real_datetime
+import dis as _dis
 import sys
 import threading as _real_threading
 import time as _real_time
@@ -52,7 +53,7 @@ class _T:
 
 class Scheduler:
     def __init__(self, chooser, horizon=1e9, max_steps=20000, trace_filter=None,
-                 stall=False, line_points=True):
+                 stall=False, line_points=True, opcode_points=False):
         self.chooser = chooser
         self.threads = []
         self.current = None
@@ -66,6 +67,7 @@ class Scheduler:
         self.trace_filter = trace_filter      # callable(code) -> bool
         self.stall = stall
         self.line_points = line_points
+        self.opcode_points = opcode_points
         self.events = []                      # harness-visible log: (now, thread name, what...)
         self.errors = []                      # (thread name, exception repr)
         self.points = 0
@@ -150,9 +152,25 @@ class Scheduler:
         if hit is None:
             hit = bool(self.trace_filter(code))
             self._tracer_cache[code] = hit
+        if hit and self.opcode_points:
+            frame.f_trace_opcodes = True
         return self._local_trace if hit else None
 
+    # bytecodes through which one thread can observe or affect another under the GIL; purely local
+    # bytecodes commute with everything and are not scheduling points
+    VISIBLE = frozenset(('LOAD_ATTR', 'STORE_ATTR', 'DELETE_ATTR', 'LOAD_GLOBAL', 'STORE_GLOBAL', 'CALL',
+                         'CALL_FUNCTION_EX', 'BINARY_SUBSCR', 'STORE_SUBSCR', 'DELETE_SUBSCR', 'LOAD_METHOD',
+                         'CONTAINS_OP', 'GET_ITER', 'FOR_ITER'))
+
     def _local_trace(self, frame, event, arg):
+        if self.opcode_points:
+            if event == 'call':
+                frame.f_trace_opcodes = True
+            elif event == 'opcode':
+                name = _dis.opname[frame.f_code.co_code[frame.f_lasti]]
+                if name in self.VISIBLE:
+                    self.point('op', (frame.f_code.co_name, frame.f_lasti))
+            return self._local_trace
         if event == 'line':
             self.point('line', (frame.f_code.co_filename.rsplit('/', 1)[-1], frame.f_lineno))
         return self._local_trace
